@@ -304,7 +304,9 @@ func TestC16Histories(t *testing.T) {
 				t.Fatalf("VIOLATION C16: %d user files, model has %d users; history %v", len(seen), len(m.Users), hist)
 			}
 		}
-		user := func(t *rapid.T) string { return rapid.SampledFrom([]string{"root", "bob", "Bob", "bob.user", "bob.admin"}).Draw(t, "user") }
+		user := func(t *rapid.T) string {
+			return rapid.SampledFrom([]string{"root", "bob", "Bob", "bob.user", "bob.admin"}).Draw(t, "user")
+		}
 		wouldOrphan := func(n string) bool {
 			u := m.Users[n]
 			return u != nil && u.Admin && m.SupportedAdmins() == 1
